@@ -1,8 +1,8 @@
 #!/bin/bash
-# usage: tools/sweep.sh "<seeds>" [tier]   - runs every claimed check for each seed, prints what needs attention
+# usage: tools/sweep.sh "<seeds>" [tier] ["<checks>"]   - runs every claimed check (or the given ones) for each seed, prints what needs attention
 cd "$(dirname "$0")/.."
 tier=${2:-quick}
-props=$(python3 -c "import json; print(' '.join(c['property_id'] for c in json.load(open('MANIFEST.json'))['checks']))")
+props=${3:-$(python3 -c "import json; print(' '.join(c['property_id'] for c in json.load(open('MANIFEST.json'))['checks']))")}
 for s in $1; do
   for p in $props; do
     out=$(VERIF_SEED=$s python3 tools/check.py $p --tier $tier 2>&1)
